@@ -63,6 +63,10 @@ run_directed = directed.run
 
 
 def cases(tier, rng):
+    for c in directed.base_exception_error_classes_cases():
+        yield "directed-base-exception-error-classes", c
+    for c in directed.error_function_bad_returns_cases():
+        yield "directed-error-function-bad-returns", c
     for c in directed.error_function_called_every_time_cases():
         yield "directed-error-function-called-every-time", c
     for c in directed.callable_exception_instance_cases():
